@@ -18,6 +18,7 @@ pub fn run(args: &Args, out: Out) {
         "conn-enum" => conn_enum::run(args, out),
         "head-gen" => head::run_gen(args, out),
         "head-splits" => head::run_splits(args, out),
+        "req-splits" => head::run_req_splits(args, out),
         "head-tcp" => head::run_tcp(args, out),
         "resp-gen" => response::run_gen(args, out),
         "chunk-lens" => response::run_chunk_lens(args, out),
